@@ -139,6 +139,69 @@ class Body:
         return "%s:%s" % (sp["file"], sp["line"])
 
 
+def _remap(x, lo, bo, owner):
+    """deep copy of a MIR JSON fragment with locals shifted by lo and block indices by bo"""
+    if isinstance(x, dict):
+        if set(x.keys()) == {"l", "p"}:
+            return {"l": x["l"] + lo, "p": [({"i": e["i"] + lo} if isinstance(e, dict) and "i" in e else e) for e in x["p"]]}
+        out = {}
+        for k, v in x.items():
+            if k in ("target", "unwind", "otherwise") and isinstance(v, int):
+                out[k] = v + bo
+            elif k == "targets" and isinstance(v, list):
+                out[k] = [[a, b + bo] for a, b in v]
+            else:
+                out[k] = _remap(v, lo, bo, owner)
+        if "promoted" in x and "promoted_of" not in x:
+            out["promoted_of"] = owner
+        return out
+    if isinstance(x, list):
+        return [_remap(v, lo, bo, owner) for v in x]
+    return x
+
+
+def _splice(caller, bi, callee):
+    """caller body dict with the call in block bi replaced by the callee's blocks"""
+    cb = caller["body"]
+    fb_ = callee["body"]
+    lo = len(cb["locals"])
+    bo = len(cb["blocks"])
+    owner = callee.get("variant_of") or callee["path"]
+    new_locals = list(cb["locals"]) + [dict(l) for l in fb_["locals"]]
+    call = cb["blocks"][bi]["term"]
+    cont = bo + len(fb_["blocks"])
+    blocks = [dict(b) for b in cb["blocks"]]
+    # callee blocks
+    for k, blk in enumerate(fb_["blocks"]):
+        nb = {"cleanup": blk["cleanup"], "stmts": _remap(blk["stmts"], lo, bo, owner)}
+        t = blk["term"]
+        if t["k"] == "return":
+            nb["term"] = {"k": "goto", "target": cont, "span": t["span"]}
+        else:
+            nt = _remap(t, lo, bo, owner)
+            if "unwind" in nt:
+                nt["unwind"] = None
+            nb["term"] = nt
+        blocks.append(nb)
+    # continuation: dest = move callee _0; goto the call's target
+    sp = call["span"]
+    blocks.append({"cleanup": False, "stmts": [{"k": "assign", "place": call["dest"], "rv": {"k": "use", "op": {"k": "move", "place": {"l": lo, "p": []}}}, "span": sp}], "term": {"k": "goto", "target": call["target"], "span": sp}})
+    # call block: parameters := arguments; goto callee entry
+    blk = dict(blocks[bi])
+    stmts = list(blk["stmts"])
+    for i, a in enumerate(call["args"]):
+        stmts.append({"k": "assign", "place": {"l": lo + 1 + i, "p": []}, "rv": {"k": "use", "op": a}, "span": sp})
+    blk["stmts"] = stmts
+    blk["term"] = {"k": "goto", "target": bo, "span": sp, "spliced_call": call.get("resolved")}
+    blocks[bi] = blk
+    out = dict(caller)
+    nbody = dict(cb)
+    nbody["locals"] = new_locals
+    nbody["blocks"] = blocks
+    out["body"] = nbody
+    return out
+
+
 def signature_table(d):
     """{function path: signature string} for the named functions of a fact document"""
     tys = d["types"]
@@ -264,6 +327,9 @@ class FactBase:
         self.adts = {a["path"]: a for a in self.d["adts"]}
         self.consts = {c["path"]: c for c in self.d["consts"]}
         self.impls = self.d["impls"]
+        self.spliced = []
+        if not os.environ.get("WOWSRP_NO_SPLICE"):
+            self.splice_fresh_helpers()
 
     def ty(self, ix):
         t = self._tycache.get(ix)
@@ -277,6 +343,53 @@ class FactBase:
         if b is None:
             b = getattr(self, "_variants", {}).get(path)
         return b
+
+    # ------------------------------------------------------------------ helper splicing
+    def splice_fresh_helpers(self):
+        """A loop-free crate-private function that did not exist on the pinned tree (by the
+        signature table; not a renamed one) is a helper some refactoring extracted.  Its body is
+        spliced into its callers' control-flow graphs, so that every rule - term-based or
+        CFG-based - sees the caller as it was before the extraction.  The helper's own body
+        stays in the fact base (C14 checks it on its own as well)."""
+        known = set((_ANCHORS or {}).get("functions", {}))
+        if not known:
+            return []
+        import cfg as _cfg
+
+        def is_fresh(b):
+            if b.kind not in ("Fn", "AssocFn") or b.path in known or b.d.get("instance_of") in known:
+                return False
+            if (b.reachable() and b.is_pub()) or b.d.get("impl_trait") or "variant_of" in b.d:
+                return False
+            if len(b.blocks) > 80 or _cfg.back_edges(b):
+                return False
+            # polymorphic bodies of const-generic functions are analysed through their instances
+            if b.d.get("generics") and any(self.ty(l["ty"]).s.count("; ") and "[u8; " not in self.ty(l["ty"]).s and False for l in b.locals):
+                return False
+            return True
+
+        fresh = {p for p, b in self.bodies.items() if is_fresh(b)}
+        done = []
+        for rnd in range(3):
+            changed = False
+            for p in list(self.bodies):
+                b = self.bodies[p]
+                if b.kind == "Promoted":
+                    continue
+                for bi, t in list(b.calls()):
+                    r = t.get("resolved")
+                    if r in fresh and r != p and t.get("target") is not None and r in self.bodies:
+                        nd = _splice(b.d, bi, self.bodies[r].d)
+                        nb = Body(self, nd)
+                        nb.path = p
+                        self.bodies[p] = nb
+                        b = nb
+                        changed = True
+                        done.append((p, r))
+            if not changed:
+                break
+        self.spliced = done
+        return done
 
     def pruned(self, path, tag, keep):
         """a variant of body `path` in which each switch block in `keep` ({block: successor})
